@@ -316,6 +316,7 @@ struct TransitionT<void> final
 struct Request final {
 	TransitionType type;
 	Short index;
+	StateID destination;	// only set by R_::applyRequest()
 };
 
 ////////////////////////////////////////////////////////////////////////////////
